@@ -374,11 +374,11 @@ func JudgeStep(st *Step, rep Reporter) Doc {
 				if mx, isMacro := ex.MacroX[name]; isMacro {
 					exp := strings.ReplaceAll(mx, "${cas}", casMacroString(obsCas))
 					exp = strings.ReplaceAll(exp, "${crc}", crc32cString(post.Raw))
-					if !jsonEqual([]byte(gv), []byte(exp)) {
+					if !jsonEqualExact([]byte(gv), []byte(exp)) {
 						rep([]string{"C07"}, "post.macro", fmt.Sprintf("after %s xattr %s=%s, want %s (new CAS %d, stored body crc %s)", o.Variant(), name, gv, exp, obsCas, crc32cString(post.Raw)))
 					}
 				} else if ex.FreshX[name] {
-					if !jsonEqual([]byte(gv), []byte(wv)) {
+					if !jsonEqualExact([]byte(gv), []byte(wv)) {
 						rep(xprops(), "post.xattr.value", fmt.Sprintf("after %s xattr %s=%s, want %s", o.Variant(), name, trunc([]byte(gv)), trunc([]byte(wv))))
 					}
 				} else if gv != wv {
